@@ -791,7 +791,7 @@ lyb_print_metadata(struct ly_out *out, const struct lyd_node *node, struct lyd_l
         /* write the "default" metadata */
         LY_CHECK_RET(lyb_print_model(out, wd_mod, 0, lybctx->lybctx));
         LY_CHECK_RET(lyb_write_string("default", 0, sizeof(uint16_t), out, lybctx->lybctx));
-        LY_CHECK_RET(lyb_write_string("true", 0, sizeof(uint16_t), out, lybctx->lybctx));
+        LY_CHECK_RET(lyb_write_string("true", 0, sizeof(uint64_t), out, lybctx->lybctx));
     }
 
     /* write all the node metadata */
